@@ -105,11 +105,11 @@ func drawCase(t *rapid.T) hsCase {
 	c.StdCert = rapid.SampledFrom([]string{"rsa", "ec"}).Draw(t, "stdcert")
 	switch c.ServerMode {
 	case "gm":
-		c.CertSource = "static"
+		c.CertSource = rapid.SampledFrom([]string{"static", "static", "static_declining_callback"}).Draw(t, "certsource")
 	case "auto":
 		c.CertSource = rapid.SampledFrom([]string{"constructor", "callbacks"}).Draw(t, "certsource")
 	default:
-		c.CertSource = rapid.SampledFrom([]string{"static", "callbacks"}).Draw(t, "certsource")
+		c.CertSource = rapid.SampledFrom([]string{"static", "callbacks", "static_declining_callback"}).Draw(t, "certsource")
 	}
 	c.SrvCert = "good"
 	if gen.OneIn(t, "badsrvcert", 7) {
@@ -230,6 +230,9 @@ func build(c hsCase, id string) (ccfg, scfg *gmtls.Config) {
 	case "gm":
 		scfg = tlsx.GMServer(p, "s"+id)
 		scfg.Certificates = []gmtls.Certificate{sign.TLS, enc.TLS}
+		if c.CertSource == "static_declining_callback" {
+			scfg.GetCertificate = func(*gmtls.ClientHelloInfo) (*gmtls.Certificate, error) { return nil, nil }
+		}
 	case "auto":
 		if c.CertSource == "constructor" {
 			var err error
@@ -257,6 +260,11 @@ func build(c hsCase, id string) (ccfg, scfg *gmtls.Config) {
 		if c.CertSource == "callbacks" {
 			scfg.Certificates = nil
 			scfg.GetCertificate = func(*gmtls.ClientHelloInfo) (*gmtls.Certificate, error) { return &std.TLS, nil }
+		}
+		if c.CertSource == "static_declining_callback" {
+			// static certificates AND a callback that has nothing for the requested name: "(nil, nil)" means "use the
+			// configured certificates"
+			scfg.GetCertificate = func(*gmtls.ClientHelloInfo) (*gmtls.Certificate, error) { return nil, nil }
 		}
 	}
 	scfg.CipherSuites = c.SrvSuites
